@@ -1072,6 +1072,11 @@ class _Exec:
             if s.tty.attrs[3] & _termios.ICANON:
                 world.log.add("query_skipped_canonical_mode")   # (the scenario itself switched line buffering back on)
                 return
+            if s.tty.attrs[6][_termios.VMIN] > 1 and s.tty.attrs[6][_termios.VTIME] == 0:
+                # (the scenario itself set MIN > 1: the tty does not count as readable before MIN characters are
+                # there, and the terminal's report is shorter - an implementation that waits with select would hang)
+                world.log.add("query_skipped_min_gt_1")
+                return
             j = self.query_no
             self.query_no += 1
             self.info["queries"].append(j)
